@@ -207,7 +207,7 @@ func (dm *EmbeddedDMap) Destroy(ctx context.Context) error {
 // Expire updates the expiry for the given key. It returns ErrKeyNotFound if
 // the DB does not contain the key. It's thread-safe.
 func (dm *EmbeddedDMap) Expire(ctx context.Context, key string, timeout time.Duration) error {
-	return dm.dm.Expire(ctx, key, timeout)
+	return convertDMapError(dm.dm.Expire(ctx, key, timeout))
 }
 
 // Name exposes name of the DMap.
